@@ -116,6 +116,20 @@ def chunks(lst, n):
     return [lst[i:i + n] for i in range(0, len(lst), n)]
 
 
+def thin_units(units, seed, isa_frac, other_frac):
+    """Thorough-tier budget control for very large instance boxes: each configuration keeps a seeded, configuration-specific
+    fraction of the units (chunks of the box), so the UNION over configurations still covers the whole box while the cost stays
+    bounded. Primary configurations (g++, -O2, asserts on, no macro: the ISA axis) keep `isa_frac`, the others `other_frac`."""
+    out = []
+    for u in units:
+        c = u.config
+        primary = c.compiler == "g++" and c.opt == "-O2" and c.asserts and not c.macros
+        r = random.Random("%s/thin/%s/%s" % (seed, c.name, u.cases[0].id if u.cases else ""))
+        if r.random() < (isa_frac if primary else other_frac):
+            out.append(u)
+    return out
+
+
 # ------------------------------------------------------------------------------------------------
 def sh(cmd, timeout=None, env=None, cwd=None):
     try:
